@@ -11,7 +11,9 @@ package verifhook
 
 import (
 	"reflect"
+	"sync"
 	"sync/atomic"
+	"unsafe"
 )
 
 // Enabled reports whether the hooks are compiled in.
@@ -97,6 +99,47 @@ func AwaitLockAny(site string, p any) {
 func AwaitRLockAny(site string, p any) {
 	if l, ok := lockerOf(p).(RLocker); ok {
 		AwaitRLock(site, 0, l)
+	}
+}
+
+// AwaitOnceAny returns when a call of o.Do would not block: the Once is done, or nobody is inside its
+// function right now. Meant for mechanically inserted call sites in front of `o.Do(func() {`: a task
+// may then be parked inside a Once function without other callers of Do blocking on the Once's
+// internal mutex, where a simulator cannot see them. Anything but a *sync.Once is a plain yield.
+func AwaitOnceAny(site string, o any) {
+	h := installed.Load()
+	if h == nil || h.Yield == nil {
+		return
+	}
+	once, ok := o.(*sync.Once)
+	if !ok {
+		h.Yield(site, 0, nil)
+		return
+	}
+	h.Yield(site, 0, func() bool { return onceFree(once) })
+}
+
+// onceFree relies on the layout of sync.Once in the pinned toolchain (done atomic.Uint32; m Mutex);
+// init below checks it.
+func onceFree(o *sync.Once) bool {
+	if (*atomic.Uint32)(unsafe.Pointer(o)).Load() == 1 {
+		return true
+	}
+	m := (*sync.Mutex)(unsafe.Add(unsafe.Pointer(o), 4))
+	if m.TryLock() {
+		m.Unlock()
+		return true
+	}
+	return false
+}
+
+func init() {
+	var o sync.Once
+	inside := true
+	before := onceFree(&o)
+	o.Do(func() { inside = onceFree(&o) })
+	if !before || inside || !onceFree(&o) {
+		panic("verifhook: unexpected sync.Once layout")
 	}
 }
 
